@@ -354,6 +354,11 @@ class PDB(Spec):
             ex["occupancies"] = np.round(0.25 + (np.arange(n) % 4) * 0.25, 2)
         if case["extra"] in ("occupancies+bfactors", "all", "bfactors-only"):
             ex["bfactors"] = np.round(10.0 + (np.arange(n) % 89) * 0.37, 2)
+            ex["bfactors"][0] = 100.0  # values that fill the six columns: >= 100.00 and <= -10.00
+            if n > 1:
+                ex["bfactors"][-1] = -12.5
+            if n > 2:
+                ex["bfactors"][1] = 999.99
         if case["extra"] in ("chainids", "all"):
             ex["chainids"] = np.array(["ABC"[(i // 5) % 3] for i in range(n)])
         if case["extra"] in ("compound", "all"):
